@@ -33,6 +33,11 @@ def scan_tlvs(b, off=0, end=None, depth=0, out=None):
 
 
 LEN_ATTACKS = [0x80, 0x81, 0x82, 0x83, 0x84, 0x88, 0xFF, 0x7F, 0x00, 0x01]
+# whole length fields: values near 2^32 / 2^63 / 2^64 (pointer arithmetic on them must not wrap)
+HUGE_LENGTHS = [bytes([0x88]) + b"\xff" * 8, bytes([0x88]) + b"\xff" * 7 + b"\xf0", bytes([0x88]) + b"\xff" * 7 + b"\xfc",
+                bytes([0x89, 0x01]) + b"\xff" * 8, bytes([0x84]) + b"\xff" * 4, bytes([0x88, 0x80]) + b"\x00" * 7,
+                bytes([0x88, 0x7f]) + b"\xff" * 7, bytes([0x87]) + b"\xff" * 7, bytes([0x85, 0x01, 0, 0, 0, 0]),
+                bytes([0x88]) + b"\xff" * 7 + b"\xfe", bytes([0x90]) + b"\xff" * 16, bytes([0x88, 0, 0, 0, 0, 0, 0, 0, 5])]
 
 
 def mutate_bytes(u, data, n=None):
@@ -46,8 +51,13 @@ def mutate_bytes(u, data, n=None):
             notes.append("random")
             continue
         tl = scan_tlvs(bytes(b))
-        k = u.below(12)
-        if k == 0:
+        k = u.below(14)
+        if k >= 12 and tl:
+            t = tl[u.below(len(tl))]
+            h = u.choice(HUGE_LENGTHS)
+            b[t[1]:t[2]] = h
+            notes.append("hugelen@%d:%s" % (t[1], h.hex()))
+        elif k == 0:
             cut = u.below(len(b) + 1)
             b = b[:cut]
             notes.append("truncate@%d" % cut)
